@@ -527,7 +527,7 @@ theorem query_object_roundtrip (fl : Flavour) (name : Str) (req : Bool)
 
 /-- query, deepObject: `p[a]=1&p[b]=x` — every key is read back as its single segment, no clash error can arise,
 and the declared properties are then built from exactly the pairs that were encoded -/
-theorem deep_object_roundtrip (fl : Flavour) (name : Str) (req : Bool) (hn : '[' ∉ name)
+theorem deep_object_roundtrip (fl : Flavour) (name : Str) (req : Bool)
     (sprops : List (Str × PS)) (rq : List Str)
     (kvs : List (Str × Str)) (henc : encodable ⟨.query, .deepObject, true⟩ name (.obj kvs) = true) :
     ∃ r, encode ⟨.query, .deepObject, true⟩ name (.obj kvs) = some r ∧
@@ -540,7 +540,10 @@ theorem deep_object_roundtrip (fl : Flavour) (name : Str) (req : Bool) (hn : '['
   have hk : ∀ kv ∈ kvs, ']' ∉ kv.1 := by
     intro kv hkv
     simp [encodable, encodableObj, objDelims, List.all_eq_true, freeOf] at henc
-    exact (henc.2 kv.1 kv.2 hkv).2
+    exact (henc.1.2 kv.1 kv.2 hkv).2
+  have hn : '[' ∉ name := by
+    simp [encodable, encodableObj, objDelims, List.all_eq_true, freeOf] at henc
+    exact henc.2
   refine ⟨{ query := deepEnc name kvs }, by simp [encode, encQuery, deepEnc], ?_⟩
   have hdp := deepProps_enc name hn kvs hk
   obtain ⟨kv0, rest, rfl⟩ : ∃ kv0 rest, kvs = kv0 :: rest := by
@@ -557,7 +560,7 @@ theorem deep_object_roundtrip (fl : Flavour) (name : Str) (req : Bool) (hn : '['
 
 /-- … and that builder is the flat-object builder of every other cell (`makeObject`, so `makeObject_lookup` gives the
 value of each declared property): deepObject decodes a flat object exactly like form / simple / label / matrix do -/
-theorem deep_object_roundtrip_makeObject (fl : Flavour) (name : Str) (req : Bool) (hn : '[' ∉ name)
+theorem deep_object_roundtrip_makeObject (fl : Flavour) (name : Str) (req : Bool)
     (sprops : List (Str × PS)) (rq : List Str)
     (kvs : List (Str × Str)) (henc : encodable ⟨.query, .deepObject, true⟩ name (.obj kvs) = true) :
     ∃ r, encode ⟨.query, .deepObject, true⟩ name (.obj kvs) = some r ∧
@@ -567,8 +570,8 @@ theorem deep_object_roundtrip_makeObject (fl : Flavour) (name : Str) (req : Bool
         | some res => ⟨.obj res, deepFound (sprops.map (fun kv => (kv.1, DS.prim kv.2))) (deepPairs kvs) (liftP res), none⟩ := by
   have hd : distinctKeys kvs = true := by
     simp [encodable, encodableObj] at henc
-    exact henc.1.1.2
-  obtain ⟨r, h1, h2⟩ := deep_object_roundtrip fl name req hn sprops rq kvs henc
+    exact henc.1.1.1.2
+  obtain ⟨r, h1, h2⟩ := deep_object_roundtrip fl name req sprops rq kvs henc
   refine ⟨r, h1, ?_⟩
   rw [h2, buildDeep_flat fl.prim kvs hd sprops]
   cases hb : buildProps fl.prim kvs sprops <;> simp [makeObject, hb, dvPrims_liftP]
@@ -670,6 +673,75 @@ theorem decodeValue_singleton (fl : Flavour) (c : Cell) (name : Str) (req : Bool
     simp only [ho] at h1 h2
     subst h2
     simp [decodeValue, decAllOf, decAnyOf, decOneOf, ho, h1]
+
+/-! ### parameter names are literal text; absence with other parameters around -/
+
+/-- deepObject selects exactly the query keys that literally start with `name[` — the name is never a pattern
+(`$filter`, `a.b`, `x+y` select their own keys and nothing else) -/
+theorem deepKey_none_of_not_prefix (name k : Str) (h : (name ++ ['[']).isPrefixOf k = false) : deepKey name k = none := by
+  simp [deepKey, h]
+
+theorem deepKey_literal_names :
+    deepKey "$filter".toList "$filter[n]".toList = some ["n".toList] ∧
+    deepKey "a.b".toList "a.b[n]".toList = some ["n".toList] ∧ deepKey "a.b".toList "axb[n]".toList = none ∧
+    deepKey "x+y".toList "x+y[n]".toList = some ["n".toList] ∧ deepKey "x+y".toList "xxy[n]".toList = none ∧
+    deepKey "q*".toList "q*[n]".toList = some ["n".toList] ∧ deepKey "q*".toList "[n]".toList = none ∧
+    deepKey "k(1)".toList "k(1)[n]".toList = some ["n".toList] ∧ deepKey "n|m".toList "n[x]".toList = none := by
+  decide
+
+/-- `$filter[n]=5` is decoded (regression for the class "name with a regex metacharacter") -/
+theorem deep_metachar_name_decodes :
+    decodeStyled impl ⟨.query, .deepObject, true⟩ "$filter".toList true { query := [("$filter[n]".toList, [['5']])] }
+      (.leaf (.deep [(['n'], .prim { t := .integer })] [])) = ⟨.dobj [(['n'], .p (.int 5))], true, none⟩ := by
+  decide
+
+/-- a typed-nil map (absent object) is decided like plain absence -/
+theorem absentObj_decision (visit : Sch → Val → Bool) (p : Param) :
+    decide' visit p absentObj = (if p.required then .missing else .accept) := by
+  unfold decide' absentObj
+  cases p.required <;> simp [Val.isNilValue]
+
+/-- a path parameter that is absent while other path parameters are present is absent (nil or typed-nil map) for
+every leaf schema and every path style: missing if required, accepted otherwise -/
+theorem path_absent_with_others (fl : Flavour) (name : Str) (st : Sty) (ex req : Bool)
+    (hst : st = .simple ∨ st = .label ∨ st = .matrix) (l : Leaf) (hl : ∀ sp rq, l ≠ .deep sp rq) :
+    let o := decodeStyled fl ⟨.path, st, ex⟩ name req { pathOthers := true } (.leaf l)
+    (o = absent ∨ o = absentObj) := by
+  cases l with
+  | prim ps =>
+    rcases hst with rfl | rfl | rfl <;>
+      simp [decodeStyled, earlyAbsent, decodeValue, decodeLeaf, pathPrim, pathPrimPrefix, pathRaw]
+  | arr it mn mx en =>
+    rcases hst with rfl | rfl | rfl <;> cases ex <;>
+      simp [decodeStyled, earlyAbsent, decodeValue, decodeLeaf, pathArr, pathArrFmt, pathRaw]
+  | obj sp rq ad =>
+    rcases hst with rfl | rfl | rfl <;> cases ex <;>
+      simp [decodeStyled, earlyAbsent, decodeValue, decodeLeaf, pathObj, pathObjFmt, pathRaw]
+  | deep sp rq => exact absurd rfl (hl sp rq)
+
+/-! ### deepObject with nested objects and arrays (tied by the differential run; concrete behaviour pinned here) -/
+
+def nestedSch : Sch := .leaf (.deep [(['a'], .prim { t := .integer }), (['l'], .arr { t := .integer }),
+  (['o'], .obj [(['x'], { t := .integer }), (['y'], { t := .string })] [['x']])] [])
+
+theorem deep_nested_examples :
+    -- a nested object and an array with a hole
+    decodeStyled impl ⟨.query, .deepObject, true⟩ ['p'] false
+      { query := [("p[o][x]".toList, [['5']]), ("p[o][y]".toList, [['w']]), ("p[l][1]".toList, [['2']])] } nestedSch
+      = ⟨.dobj [(['l'], .a [none, some (.int 2)]), (['o'], .o [(['x'], .int 5), (['y'], .str ['w'])])], true, none⟩ ∧
+    -- a path used both as a value and as an object: ParseError (deepSet)
+    (decodeStyled impl ⟨.query, .deepObject, true⟩ ['p'] false
+      { query := [("p[o]".toList, [['1']]), ("p[o][x]".toList, [['2']])] } nestedSch).err = some .parse ∧
+    (decodeStyled impl ⟨.query, .deepObject, true⟩ ['p'] false
+      { query := [("p[o][x]".toList, [['1']]), ("p[o][x][q]".toList, [['2']])] } nestedSch).err = some .parse ∧
+    -- a primitive property of the nested object that does not parse: ParseError
+    (decodeStyled impl ⟨.query, .deepObject, true⟩ ['p'] false { query := [("p[o][x]".toList, [['z']])] } nestedSch).err = some .parse ∧
+    -- the nested object's own `required` is enforced by validation
+    validateParameter ⟨⟨.query, .deepObject, true⟩, ['p'], false, false, nestedSch⟩ { query := [("p[o][y]".toList, [['w']])] } = .schema ∧
+    validateParameter ⟨⟨.query, .deepObject, true⟩, ['p'], false, false, nestedSch⟩ { query := [("p[o][x]".toList, [['3']])] } = .accept ∧
+    -- a scalar where an object is declared is handed to validation as a string and rejected there
+    validateParameter ⟨⟨.query, .deepObject, true⟩, ['p'], false, false, nestedSch⟩ { query := [("p[o]".toList, [['3']])] } = .schema := by
+  decide
 
 /-! ### where the code and the specification part (exclusion classes), and that they part nowhere else -/
 
